@@ -27,6 +27,9 @@ pub const SWEEP_KINDS: u32 = 9;
 const SWEEP_POISON: [u32; 6] = [0, 4, 5, 9, 11, 14];
 /// Fault kind "the peer goes silent" (only with client pings enabled: the client then gives up for inactivity).
 const SILENCE: u32 = 100;
+/// Fault kind "the peer stops reading": the transport's `send` never completes from some point on. The client cannot
+/// know; what must still hold is that no call, batch or subscribe stays pending beyond its request timeout.
+const SEND_HANG: u32 = 101;
 
 pub fn poison(k: u32, id_str: bool) -> InItem {
 	let t = |s: &str| InItem::Text(s.to_string());
@@ -70,6 +73,7 @@ fn describe_fault(kind: u32) -> String {
 		1 => "recv-error".into(),
 		2 => "peer-close".into(),
 		SILENCE => "peer-silent".into(),
+		SEND_HANG => "send-hangs".into(),
 		k => format!("poison-{}", k - 3),
 	}
 }
@@ -111,8 +115,9 @@ pub async fn scenario() {
 	} else if sweep_base || rt::chance("nofault", 1, 12) {
 		(None, 0, false)
 	} else {
-		let kind = match rt::draw("fault_class", 4) {
+		let kind = match rt::draw("fault_class", 5) {
 			_ if ping_mode && rt::chance("silence", 1, 2) => SILENCE,
+			4 => *rt::pick("quiet_fault", &[SILENCE, SEND_HANG]),
 			0 => 0,
 			1 => rt::draw_range("tf", 1, 2),
 			_ => 3 + rt::draw("poison", N_POISON),
@@ -133,6 +138,7 @@ pub async fn scenario() {
 				1 => Fault::Recv { item: InItem::Err("injected receive error".into()), front },
 				2 => Fault::Recv { item: InItem::Err("injected: connection closed by peer".into()), front },
 				SILENCE => Fault::Silence,
+				SEND_HANG => Fault::SendHang,
 				k => Fault::Recv { item: poison(k - 3, id_str), front },
 			});
 		}
@@ -154,7 +160,7 @@ pub async fn scenario() {
 			.request_timeout(Duration::from_secs(60))
 			.build_with_tokio(tx, rx),
 	);
-	let ops: Arc<Mutex<Vec<(OpRec, u64, tokio::time::Instant)>>> = Arc::default();
+	let ops: Arc<Mutex<Vec<(OpRec, u64, tokio::time::Instant, tokio::time::Instant)>>> = Arc::default(); // (.., invoked at, completed at)
 	let peer_log: Arc<Mutex<PeerLog>> = Arc::default();
 	let nonce_ctr = Arc::new(AtomicU64::new(1));
 	let peer = spawn_peer(wire.clone(), peer_log.clone(), PeerCfg { hostile: false, id_kind_str: id_str });
@@ -191,8 +197,8 @@ pub async fn scenario() {
 			let mut held: Vec<Subscription<Value>> = Vec::new();
 			for op in plan {
 				let t0 = (rt::now_stamp(), tokio::time::Instant::now());
-				let rec = run_op(&client, ti, &op, &nonce_ctr, &mut held).await;
-				ops.lock().unwrap().push((rec, t0.0, t0.1));
+				let rec = run_op_bounded(&client, ti, &op, &nonce_ctr, &mut held).await;
+				ops.lock().unwrap().push((rec, t0.0, t0.1, tokio::time::Instant::now()));
 				// a subscription handle that goes away makes the background task send an unsubscribe call on its own
 				if !held.is_empty() && rt::chance("drop_held", 1, 3) {
 					rt::event("op-drop-sub", format!("t{ti}"));
@@ -218,8 +224,8 @@ pub async fn scenario() {
 			_ => PlanOp::Handler,
 		};
 		let t0 = (rt::now_stamp(), tokio::time::Instant::now());
-		let rec = run_op(&client, 99, &op, &nonce_ctr, &mut held_all).await;
-		ops.lock().unwrap().push((rec, t0.0, t0.1));
+		let rec = run_op_bounded(&client, 99, &op, &nonce_ctr, &mut held_all).await;
+		ops.lock().unwrap().push((rec, t0.0, t0.1, tokio::time::Instant::now()));
 	}
 	// let everything settle (fires every timer below the watchdog horizon; with pings on the timers never end, so a
 	// span longer than the request timeout stands in for quiescence)
@@ -255,10 +261,26 @@ pub async fn scenario() {
 	}
 }
 
+/// `subscribe_to_method` is not under the request timeout (and not named by the property): when the request queue is
+/// full behind a transport send that never completes it waits for good. The harness gives up on it after a while
+/// and does not judge it.
+async fn run_op_bounded(client: &Client, ti: usize, op: &PlanOp, nonce_ctr: &AtomicU64, held: &mut Vec<Subscription<Value>>) -> OpRec {
+	if !matches!(op, PlanOp::Handler) {
+		return run_op(client, ti, op, nonce_ctr, held).await;
+	}
+	match tokio::time::timeout(Duration::from_secs(300), run_op(client, ti, op, nonce_ctr, held)).await {
+		Ok(r) => r,
+		Err(_) => {
+			rt::probe("handler_registration_given_up");
+			OpRec { nonces: vec![], done_stamp: rt::event("op-given-up", format!("t{ti} subscribe_to_method")), outcome: Outcome::Cancelled }
+		}
+	}
+}
+
 #[allow(clippy::too_many_arguments)]
 fn check(
 	wire: &Wire,
-	ops: &[(OpRec, u64, tokio::time::Instant)],
+	ops: &[(OpRec, u64, tokio::time::Instant, tokio::time::Instant)],
 	peer: &PeerLog,
 	kind: Option<u32>,
 	connected: bool,
@@ -277,6 +299,7 @@ fn check(
 		Some(0) => w.send_failed_stamp,
 		// the client gives up on a silent peer when its read task ends for inactivity
 		Some(SILENCE) => fired.and_then(|f| w.rx_dropped_stamp.filter(|r| *r > f)),
+		Some(SEND_HANG) => None,
 		Some(_) => fired.and_then(|_| {
 			// the fault item is the one pushed without a peer-push event: find a delivered item that equals it
 			w.delivered.iter().find(|(_, _, it)| match (it, kind) {
@@ -311,8 +334,12 @@ fn check(
 	};
 	let mut causes: Vec<String> = Vec::new();
 	let mut outstanding_at_fault = 0;
-	for (idx, (op, inv_stamp, inv_t)) in ops.iter().enumerate() {
+	for (idx, (op, inv_stamp, inv_t, done_t)) in ops.iter().enumerate() {
 		let late = idx >= first_phase;
+		// whatever happens to the connection: no call, batch or subscribe stays pending longer than the request timeout
+		if matches!(op.outcome, Outcome::Call(..) | Outcome::Batch(..) | Outcome::Sub(..)) && done_t.duration_since(*inv_t) > Duration::from_secs(61) {
+			rt::violate(P, "pending-longer-than-timeout", format!("{}:{fault_name}", match op.outcome { Outcome::Call(..) => "call", Outcome::Batch(..) => "batch", _ => "subscribe" }), format!("op {:?} completed {:?} after it was invoked (request timeout 60 s)", op.nonces, done_t.duration_since(*inv_t)));
+		}
 		if let Some(n) = noticed {
 			if *inv_stamp < n && op.done_stamp > n {
 				outstanding_at_fault += 1;
@@ -335,7 +362,7 @@ fn check(
 			} else if e.contains("RequestTimeout") {
 				let elapsed_before_fault = w.fault_fired_vtime.is_some_and(|ft| ft.duration_since(*inv_t) >= Duration::from_secs(60));
 				// a silent peer is only a failure once the client has given up on it
-				let excused = if silence { !noticed.is_some_and(|n| op.done_stamp > n) } else { elapsed_before_fault };
+				let excused = if silence { !noticed.is_some_and(|n| op.done_stamp > n) } else { kind == Some(SEND_HANG) || elapsed_before_fault };
 				if !excused {
 					rt::violate(P, "stalled-until-timeout", format!("{what}:{phase}:{fault_name}"), format!("op {:?} was left pending until its request timeout instead of failing with the cause", op.nonces));
 				}
@@ -347,7 +374,7 @@ fn check(
 				if transport_fault && !e.contains("injected") {
 					rt::violate(P, "wrong-cause", format!("{what}:{phase}:{fault_name}"), format!("op {:?} failed with {e}, which does not carry the injected transport fault", op.nonces));
 				}
-				if kind.is_none() {
+				if kind.is_none() || kind == Some(SEND_HANG) {
 					rt::violate(P, "spurious-disconnect", format!("{what}:{phase}"), format!("op {:?} failed with {e} although no fault was injected and the peer behaved", op.nonces));
 				}
 			} else if transport_fault || silence || kind.is_none() {
@@ -429,7 +456,7 @@ fn check(
 			_ => "noticed.poison",
 		});
 	}
-	if !connected && kind.is_some_and(|k| k >= 3 && k != SILENCE) {
+	if !connected && kind.is_some_and(|k| k >= 3 && k < SILENCE) {
 		rt::probe("poison_caused_disconnect");
 	}
 }
